@@ -3,7 +3,7 @@
    Namespace clash name, what yaml_load answered for every string involved, and one observation per
    (parser mode, channel): what the real parser stored for the key, or that it rejected / crashed; for document
    channels also what the mode's loader made of the document at that key. *)
-From JV Require Import Lib.Base Lib.Regex Model.TyVal Model.Scalar Model.Ty Model.TyLoader Model.C05Channels Spec.C05Spec Spec.C02Guard.
+From JV Require Import Lib.Base Lib.Regex Model.TyVal Model.Scalar Model.Ty Model.TyLoader Model.C05Channels Model.C05History Spec.C05Spec Spec.C02Guard.
 
 Record ob := {
   o_yaml : bool;                 (* parser_mode = yaml: the observation is compared with the model *)
@@ -110,7 +110,32 @@ Definition spec_ok (c : case) : bool :=
 Definition judge1 (c : case) : verdict :=
   {| v_model := model_ok c; v_class := class_of c; v_spec := spec_ok c |}.
 
-Definition judge (cs : list case) := judge_all judge1 cs.
+(* ---- history cases ----------------------------------------------------------------------------------------
+   Settings for keys whose parsing consults the previous value of the key (a List[dataclass] item with a missing
+   field, a subclass spec without class_path), pushed through the channels of fresh parsers twice in one
+   process: in a clean state and after another parser's parse_args call described by h_script (accepted options,
+   then typically a --cfg whose value is rejected).  The model (Model/C05History.v) computes what previous_config
+   is after that call; a channel's answer can depend on it only through that state, so with the state the model
+   computes (None) every channel must answer as in the clean state.  The spec is the same as for ordinary cases:
+   all observations, clean and after, agree. *)
+Record hob := { h_clean : obs; h_after : obs }.
+Record hcase := { h_script : list pitem; h_rejected : bool; h_obs : list hob }.
+
+Definition predict (st : pstate) (clean : obs) : obs :=
+  match st with None => clean | Some _ => Crashed end.     (* a stale namespace: no answer the model can vouch for *)
+
+Definition judge1h (h : hcase) : verdict :=
+  let st := state_after None [h_script h] in
+  {| v_model := Bool.eqb (call_rejected (h_script h)) (h_rejected h)
+                && forallb (fun o => obs_eqb (predict st (h_clean o)) (h_after o)) (h_obs h);
+     v_class := 0;
+     v_spec := c05_spec (map h_clean (h_obs h) ++ map h_after (h_obs h)) |}.
+
+Inductive ccase := Setting (c : case) | History (h : hcase).
+
+Definition judge (cs : list ccase) :=
+  judge_all (fun x => match x with Setting c => judge1 c | History h => judge1h h end) cs.
+
 
 (* ---- after fixes/C05-clash-key-unadapted.patch has been applied -------------------------------------------
    Set JUDGE = "judge_fixed" in tie/props/c05.py and remove class 2 from FINDING_CLASSES: _apply_actions then
@@ -122,4 +147,5 @@ Definition unclash (c : case) : case :=
 
 Definition judge1_fixed (c : case) : verdict := judge1 (unclash c).
 
-Definition judge_fixed (cs : list case) := judge_all judge1_fixed cs.
+Definition judge_fixed (cs : list ccase) :=
+  judge_all (fun x => match x with Setting c => judge1_fixed c | History h => judge1h h end) cs.
